@@ -176,16 +176,74 @@ func c12GenUse(r *rng) c12Use {
 		}}
 	default:
 		h := 1 + r.intn(3)
+		nested := r.chance(1, 3)
 		return c12Use{fmt.Sprintf("on:%d", h), func(ctx context.Context, w io.Writer, handles map[int]*templ.OnceHandle) error {
 			if handles[h] == nil {
 				handles[h] = templ.NewOnceHandle()
 			}
-			return handles[h].Once().Render(templ.WithChildren(ctx, templ.Raw(fmt.Sprintf("<once %d>", h))), w)
+			content := templ.Component(templ.Raw(fmt.Sprintf("<once %d>", h)))
+			if nested {
+				// the content uses the same handle again (a component that guards its own dependency, rendered inside the
+				// guarded block): still once
+				hh := handles[h]
+				content = templ.ComponentFunc(func(ctx context.Context, w io.Writer) error {
+					if _, err := fmt.Fprintf(w, "<once %d>", h); err != nil {
+						return err
+					}
+					return hh.Once().Render(templ.WithChildren(ctx, templ.Raw(fmt.Sprintf("<once %d>", h))), w)
+				})
+			}
+			return handles[h].Once().Render(templ.WithChildren(ctx, content), w)
 		}}
 	}
 }
 
+var reScriptName = regexp.MustCompile("Name: `([^`]*)`")
+var reScriptFunction = regexp.MustCompile("Function: `([^`]*)`")
+
+// c12ScriptNames: the context identifies a script by the function name the generator gives it, so two script templates
+// that are not the same function must not get the same name (they may live in different packages of one program).
+func c12ScriptNames(e *emitter) {
+	type st struct{ params, body string }
+	variants := []st{
+		{"first string, second string", "console.log(first, second);"},
+		{"second string, first string", "console.log(first, second);"},
+		{"a string", "console.log(a);"},
+		{"a string", "console.log(a) ;"},
+		{"a string, b string", "console.log(a);"},
+		{"b string", "console.log(a);"},
+		{"", "alert(1);"},
+	}
+	gen := func(v st) (string, string, bool) {
+		src := "package x\n\nscript show(" + v.params + ") {\n\t" + v.body + "\n}\n"
+		code, err := generateGo(src)
+		if err != nil {
+			return "", "", false
+		}
+		n, f := reScriptName.FindStringSubmatch(code), reScriptFunction.FindStringSubmatch(code)
+		if n == nil || f == nil {
+			return "", "", false
+		}
+		return n[1], f[1], true
+	}
+	for i, a := range variants {
+		for j, b := range variants {
+			if j <= i {
+				continue
+			}
+			na, fa, oka := gen(a)
+			nb, fb, okb := gen(b)
+			if !oka || !okb {
+				continue
+			}
+			e.emit(fmt.Sprintf("scriptname %d %d", i, j), "scriptname", hx(a.params+" | "+a.body), hx(b.params+" | "+b.body), hx(na), hx(nb), b01(fa == fb),
+				b01(a.body == b.body))
+		}
+	}
+}
+
 func runC12(e *emitter, tier string, seed uint64) {
+	c12ScriptNames(e)
 	r := &rng{s: seed}
 	n := 1500
 	if tier == "thorough" {
